@@ -95,18 +95,25 @@ type rnGlobals struct {
 	stUnit, stMin, stMax int64
 	sLock, sRevoke       int64
 	gate                 uint64
+	admin                types.Address
+	minGuardians         int
+	minAdminDelay        uint64
+	minSoftDelay         uint64
 }
 
 func rnSaveGlobals() rnGlobals {
 	return rnGlobals{constants.RewardTimeLimit, constants.UpdateMinNumMomentums, constants.MomentumsPerEpoch,
 		constants.StakeTimeUnitSec, constants.StakeTimeMinSec, constants.StakeTimeMaxSec,
-		constants.SentinelLockTimeWindow, constants.SentinelRevokeTimeWindow, verifier.ReceiverMismatchEnforcementHeight}
+		constants.SentinelLockTimeWindow, constants.SentinelRevokeTimeWindow, verifier.ReceiverMismatchEnforcementHeight,
+		constants.InitialBridgeAdministrator, constants.MinGuardians, constants.MinAdministratorDelay, constants.MinSoftDelay}
 }
 func (x rnGlobals) restore() {
 	constants.RewardTimeLimit, constants.UpdateMinNumMomentums, constants.MomentumsPerEpoch = x.rtl, x.updMin, x.mpe
 	constants.StakeTimeUnitSec, constants.StakeTimeMinSec, constants.StakeTimeMaxSec = x.stUnit, x.stMin, x.stMax
 	constants.SentinelLockTimeWindow, constants.SentinelRevokeTimeWindow = x.sLock, x.sRevoke
 	verifier.ReceiverMismatchEnforcementHeight = x.gate
+	constants.InitialBridgeAdministrator, constants.MinGuardians = x.admin, x.minGuardians
+	constants.MinAdministratorDelay, constants.MinSoftDelay = x.minAdminDelay, x.minSoftDelay
 }
 
 type rnCoins struct{ znn, qsr *big.Int }
@@ -247,6 +254,8 @@ type rnRun struct {
 	observed     map[types.Hash]bool   // contract blocks observed in the pool, to be confirmed by the next momentum
 	pendingMints map[types.Hash]rnMint // mint requests (descendant block hash) the token contract still has to answer
 	stakes       map[types.Address][]types.Hash
+	liqTokens    []types.ZenonTokenStandard // tokens with a reward tuple in the liquidity contract (bridge regime)
+	liqStakes    map[types.Address][]types.Hash
 	failed       bool
 	quiet        bool // final phase: no Update calls by the producer
 	touched      map[types.Address]bool
@@ -377,7 +386,7 @@ func (r *rnRun) observeBlock(tx *nom.AccountBlockTransaction, methodErr error, s
 		method = m.Name
 	}
 	ackTs := ack.Timestamp.Unix()
-	c.Hit("recv-" + cn + "." + method + "-" + strings.SplitN(status, ":", 2)[0])
+	c.Hit("recv-" + cn + "." + method + "-" + status)
 
 	// ---- history / deposit deltas (sorted) --------------------------------------------------------
 	type credit struct {
@@ -538,6 +547,7 @@ func (r *rnRun) observeBlock(tx *nom.AccountBlockTransaction, methodErr error, s
 						}
 						r.pendingMints[d.Hash] = rnMint{types.LiquidityContract, m.TokenStandard, m.Amount, "liquidity remainder"}
 					} else if rnIsBurn(d) {
+						c.Hit("liq-additional-reward-burned")
 						if d.TokenStandard == types.ZnnTokenStandard {
 							nz.Sub(nz, d.Amount)
 						} else if d.TokenStandard == types.QsrTokenStandard {
@@ -862,6 +872,109 @@ func (r *rnRun) afterMomentum(m *nom.Momentum) {
 	r.touched = map[types.Address]bool{}
 }
 
+// setupLiquidityStaking (bridge&liquidity regime): guardians, two issued tokens spread over three users, a reward tuple
+// per token — the steps of vm/embedded/tests/z_liquidity_test.go, with the mock's own producer, before tracking starts.
+func (r *rnRun) setupLiquidityStaking() error {
+	n := r.n
+	mom := func(k int) error {
+		for i := 0; i < k; i++ {
+			if _, err := n.Momentum(); err != nil {
+				return err
+			}
+		}
+		return nil
+	}
+	send := func(from, to types.Address, tok types.ZenonTokenStandard, amount *big.Int, data []byte) error {
+		if amount == nil {
+			amount = big.NewInt(0)
+		}
+		_, err := n.Submit(&nom.AccountBlock{BlockType: nom.BlockTypeUserSend, Address: from, ToAddress: to, TokenStandard: tok, Amount: amount, Data: data})
+		return err
+	}
+	receiveAll := func(who types.Address) {
+		hs, _ := n.Chain().GetFrontierMomentumStore().GetAccountMailbox(who).GetUnreceivedAccountBlockHashes(20)
+		for _, h := range hs {
+			n.Submit(&nom.AccountBlock{BlockType: nom.BlockTypeUserReceive, Address: who, FromBlockHash: h})
+		}
+	}
+	admin := g.User5.Address
+	guardians := []types.Address{g.User1.Address, g.User2.Address, g.User3.Address, g.User4.Address}
+	nominate := definition.ABILiquidity.PackMethodPanic(definition.NominateGuardiansMethodName, guardians)
+	if err := send(admin, types.LiquidityContract, types.ZnnTokenStandard, nil, nominate); err != nil {
+		return err
+	}
+	if err := mom(int(constants.MinAdministratorDelay) + 4); err != nil {
+		return err
+	}
+	if err := send(admin, types.LiquidityContract, types.ZnnTokenStandard, nil, nominate); err != nil {
+		return err
+	}
+	for i, nm := range []string{"LIQA", "LIQB"} {
+		if err := send(g.User1.Address, types.TokenContract, types.ZnnTokenStandard, new(big.Int).Set(constants.TokenIssueAmount),
+			definition.ABIToken.PackMethodPanic(definition.IssueMethodName, fmt.Sprintf("liquidity-token-%d", i), nm, "", big.NewInt(100*g.Zexp), big.NewInt(1000*g.Zexp), uint8(6), true, true, false)); err != nil {
+			return err
+		}
+	}
+	if err := mom(3); err != nil {
+		return err
+	}
+	receiveAll(g.User1.Address)
+	if err := mom(2); err != nil {
+		return err
+	}
+	bm, err := n.Chain().GetFrontierMomentumStore().GetAccountStore(g.User1.Address).GetBalanceMap()
+	if err != nil {
+		return err
+	}
+	var toks []types.ZenonTokenStandard
+	for t := range bm {
+		if t != types.ZnnTokenStandard && t != types.QsrTokenStandard && bm[t].Sign() > 0 {
+			toks = append(toks, t)
+		}
+	}
+	sort.Slice(toks, func(i, j int) bool { return string(toks[i][:]) < string(toks[j][:]) })
+	if len(toks) != 2 {
+		return fmt.Errorf("expected two issued tokens, found %d", len(toks))
+	}
+	for _, t := range toks {
+		for _, u := range []types.Address{g.User2.Address, g.User3.Address} {
+			if err := send(g.User1.Address, u, t, big.NewInt(25*g.Zexp), nil); err != nil {
+				return err
+			}
+		}
+	}
+	if err := mom(2); err != nil {
+		return err
+	}
+	receiveAll(g.User2.Address)
+	receiveAll(g.User3.Address)
+	pz := uint32(1000 + 1000*r.c.R.Intn(8))
+	pq := uint32(1000 + 1000*r.c.R.Intn(8))
+	tuple := definition.ABILiquidity.PackMethodPanic(definition.SetTokenTupleMethodName, []string{toks[0].String(), toks[1].String()},
+		[]uint32{pz, 10000 - pz}, []uint32{pq, 10000 - pq}, []*big.Int{big.NewInt(1000), big.NewInt(2000)})
+	if err := send(admin, types.LiquidityContract, types.ZnnTokenStandard, nil, tuple); err != nil {
+		return err
+	}
+	if err := mom(int(constants.MinSoftDelay) + 4); err != nil {
+		return err
+	}
+	if err := send(admin, types.LiquidityContract, types.ZnnTokenStandard, nil, tuple); err != nil {
+		return err
+	}
+	if err := mom(4); err != nil {
+		return err
+	}
+	info, err := definition.GetLiquidityInfo(n.Chain().GetFrontierAccountStore(types.LiquidityContract).Storage())
+	if err != nil {
+		return err
+	}
+	if len(info.TokenTuples) != 2 {
+		return fmt.Errorf("token tuples were not set (%d)", len(info.TokenTuples))
+	}
+	r.liqTokens = toks
+	return nil
+}
+
 func init() {
 	register("rewards-node", func(c *Ctx) {
 		for i := 0; i < c.N; i++ {
@@ -920,6 +1033,10 @@ func rewardsNodeHistory(c *Ctx, id int) {
 	constants.StakeTimeMaxSec = 1200
 	constants.SentinelLockTimeWindow = 200
 	constants.SentinelRevokeTimeWindow = 150
+	constants.InitialBridgeAdministrator = g.User5.Address
+	constants.MinGuardians = 4
+	constants.MinAdministratorDelay = 6
+	constants.MinSoftDelay = 4
 	// sporks are activated with the mock's own producer; keep it from sending Update calls meanwhile
 	constants.UpdateMinNumMomentums = 1 << 40
 
@@ -927,7 +1044,7 @@ func rewardsNodeHistory(c *Ctx, id int) {
 	defer restoreEpoch()
 	defer n.Stop()
 	r := &rnRun{c: c, n: n, id: id, cfg: cfg, st: map[types.Address]*rnState{}, observed: map[types.Hash]bool{},
-		pendingMints: map[types.Hash]rnMint{}, stakes: map[types.Address][]types.Hash{}, touched: map[types.Address]bool{}}
+		pendingMints: map[types.Hash]rnMint{}, stakes: map[types.Address][]types.Hash{}, touched: map[types.Address]bool{}, liqStakes: map[types.Address][]types.Hash{}}
 	r.genesis = n.Chain().GetGenesisMomentum().Timestamp.Unix()
 	c.Hit("history-" + cfg.kind + "-" + cfg.regime)
 
@@ -948,6 +1065,15 @@ func rewardsNodeHistory(c *Ctx, id int) {
 			if _, err := n.Momentum(); err != nil {
 				r.fail("momentum: %v", err)
 				return
+			}
+		}
+		if cfg.regime == "bridge" && cfg.kind == "normal" {
+			if err := r.setupLiquidityStaking(); err != nil {
+				r.fail("liquidity staking setup: %v", err)
+				return
+			}
+			if len(r.liqTokens) > 0 {
+				c.Hit("history-with-liquidity-staking")
 			}
 		}
 	}
@@ -1051,6 +1177,25 @@ func rewardsNodeHistory(c *Ctx, id int) {
 					"TEST-pillar-late", g.Pillar7.Address, g.Pillar7.Address, uint8(c.R.Intn(101)), uint8(c.R.Intn(101))))
 				pillarNames = append(pillarNames, "TEST-pillar-late")
 				pillarOwner["TEST-pillar-late"] = g.Pillar7.Address
+			}
+		case x < 75 && len(r.liqTokens) > 0: // liquidity staking (bridge regime): stake, cancel, additional reward
+			from := []types.Address{g.User1.Address, g.User2.Address, g.User3.Address}[c.R.Intn(3)]
+			switch c.R.Intn(5) {
+			case 0, 1:
+				tok := r.liqTokens[c.R.Intn(len(r.liqTokens))]
+				dur := int64(1+c.R.Intn(6)) * constants.StakeTimeUnitSec
+				if b := call("liq-stake", from, types.LiquidityContract, tok, big.NewInt(int64(2000+c.R.Intn(5000000))), definition.ABILiquidity.PackMethodPanic(definition.LiquidityStakeMethodName, dur)); b != nil {
+					r.liqStakes[from] = append(r.liqStakes[from], b.Hash)
+				}
+			case 2:
+				if l := r.liqStakes[from]; len(l) > 0 {
+					call("liq-cancel", from, types.LiquidityContract, types.ZnnTokenStandard, nil, definition.ABILiquidity.PackMethodPanic(definition.CancelLiquidityStakeMethodName, l[c.R.Intn(len(l))]))
+				}
+			default:
+				// two calls with the same parameters, a soft delay apart, set the additional reward paid out of the contract's own balance
+				k := int64(c.R.Intn(3))
+				call("liq-additional-reward", g.User5.Address, types.LiquidityContract, types.ZnnTokenStandard, nil, definition.ABILiquidity.PackMethodPanic(definition.SetAdditionalRewardMethodName,
+					znn(10*k), znn(100*k)))
 			}
 		case x < 81: // anyone may call Update
 			ca := rnContracts[c.R.Intn(len(rnContracts))]
